@@ -446,3 +446,21 @@ def _alias_ok(node, par):
     if isinstance(par, ast.Assign):
         return False, "stored elsewhere"
     return False, type(par).__name__
+
+
+def ledger_containers(ck, an, prefix="S7"):
+    """The ledgers are per-broker defaultdict(float) (flat / unknown contracts read as 0.0), the reference table a per-broker dict."""
+    fa = an.fa("Broker.__init__")
+    want = {"_holdings_quantity": ("defaultdict(float)", "collections.defaultdict(float)"), "_holdings_margins": ("defaultdict(float)", "collections.defaultdict(float)"),
+            "_last_marking_to_market_price": ("dict()", "{}")}
+    for attr, ok_vals in want.items():
+        st = [s for s in assigns_to_attr(fa, attr)]
+        vals = [ast.unparse(s.value) for s in st if isinstance(s, (ast.Assign, ast.AnnAssign)) and s.value is not None]
+        ck.check(len(vals) == 1 and vals[0] in ok_vals, "IDIOM", f"{prefix}.ledger-container", fa.f.short, fa.f.loc, f"Broker.{attr} is a fresh {ok_vals[0]} per broker", f"Broker.{attr} = {vals}", construct=f"self.{attr} = {ok_vals[0]}")
+    dep = [s for s in all_stmts(fa) if isinstance(s, ast.Assign) and ast.unparse(s.targets[0]) == "self._holdings_quantity[base_currency]"]
+    ck.check(len(dep) == 1 and ast.unparse(dep[0].value) == "deposit", "ARGFLOW", f"{prefix}.initial-deposit", fa.f.short, fa.f.loc, "the account starts with the deposit in the base currency", "the initial deposit is not booked as cash",
+             construct="self._holdings_quantity[base_currency] = deposit")
+    for attr, src in (("exchange", "exchange"), ("base_currency", "base_currency"), ("fees", "fees"), ("_epsilon", "epsilon")):
+        st = assigns_to_attr(fa, attr)
+        ck.check(len(st) == 1 and isinstance(st[0], ast.Assign) and ast.unparse(st[0].value) == src, "ARGFLOW", f"{prefix}.broker-{src}", fa.f.short, fa.f.loc, f"Broker.{attr} is the constructor argument {src}",
+                 f"Broker.{attr} = {[ast.unparse(x.value) for x in st if isinstance(x, ast.Assign)]}", construct=f"self.{attr} = {src}")
